@@ -69,16 +69,22 @@ def check_c14(ctx):
     g = ctx.gen_cases("MC_TemporalGen", "MC_TemporalGen_sim.cfg", sim, simulate=dict(num=4000 if quick else 60000, depth=7), idprefix="tsim-")
     ctx.notes["generators"]["simulated_programs"] = g["cases"]
     res2 = run_cases(ctx, sim, "sim", 2 if quick else 4)
+    # joins: a second temporal literal whose annotation shares variables with the first (bound variables must equal the
+    # stored bounds), or that carries an operator; coalesced databases over three atoms
+    jn = os.path.join(ctx.work, "t_join.ndjson")
+    g = ctx.gen_cases("MC_TemporalGen", "MC_TemporalGen_join_sim.cfg", jn, simulate=dict(num=3000 if quick else 40000, depth=9), idprefix="tj-")
+    ctx.notes["generators"]["join_programs"] = g["cases"]
+    run_cases(ctx, jn, "join", 1 if quick else 3)
     for r in list(res2.values())[:3]:
         ctx.add_sample(dict(program=r["text"], now=r["now"], facts=[evalfam.fact_str(a) for a in r["variants"][0]["got"]],
                             temporal=[(evalfam.fact_str(x[0]), x[1]) for x in r["variants"][0]["tgot"]]))
     ctx.exhaustive = True
     ctx.assumptions += ["one timeline unit is one second from 2024-01-01T00:00:00Z; base facts are coalesced (the property's premise); windows satisfy a <= b",
                         "each program is run as written and with reversed clause/fact order on rotating store kinds, with and without deterministic order (C05 for temporal programs)",
-                        "constant annotations in rule bodies and annotations whose variables are already bound have no documented meaning and are not generated"]
+                        "constant annotations in rule bodies have no documented meaning and are not generated; an annotation variable that already has a value is read as an equality with the stored bound (unification)"]
     return ctx.finish("model_checking",
                       "temporal programs generated by TLC (TemporalGen): base facts on a 0..5 timeline, evaluation times 0..5, windows 0<=a<=b<=3 incl. zero-length and end-touching, the four operators, interval variable binding, "
-                      "the @[T] point shorthand, head annotations (variables, now, constants) and two-rule chains; regular and temporal store after EvalProgram compared with TemporalSem!TModel by TLC; "
+                      "the @[T] point shorthand, head annotations (variables, now, constants), two-rule chains and two-literal joins on interval variables; regular and temporal store after EvalProgram compared with TemporalSem!TModel by TLC; "
                       "non-trivial = derives at least one fact; distinct by (program text, evaluation time)")
 
 
